@@ -866,6 +866,18 @@ func (cx *Ctx) checkVerifiedOctetsOfParams(r *Report) {
 	if n == 0 {
 		r.Fail("R-VFG", "ValidateRedirectSignature:octets-of-params", w.FnPos(vr), "the redirect verifier is no longer called")
 	}
+	// one verification decides: a second attempt over other octets (without the RelayState, with trimmed values, ...)
+	// accepts a message whose parameters the service provider did not sign
+	_, sites := lvf.CallArgSources(matchFnKey(w, "signature.ValidateRedirect"), 1)
+	inLoop := false
+	for _, c := range sites {
+		if cx.Fx.info(c.Parent()).reachable(c.Block(), c.Block()) {
+			inLoop = true
+		}
+	}
+	if len(sites) > 0 {
+		r.Check(len(sites) == 1 && !inLoop, "R-GUARD", "ValidateRedirectSignature:one-verification", w.InstrPos(sites[0]), "the signature is verified once, over one string", fmt.Sprintf("the redirect signature is verified at %d places (or in a loop): when the octets prescribed by the binding do not verify, others are tried - a message whose RelayState or other parameters were not signed is accepted", len(sites)))
+	}
 }
 
 // checkVerificationKeysFromGivenMetadata (R-VFG): the certificates a request signature is verified against are parsed
